@@ -168,12 +168,90 @@ func genericRelation() error {
 	return nil
 }
 
+// genericValue: a filter or query obtained from a generic filter is a value — reconfiguring the
+// generic filter afterwards (and building further filters / queries from it) does not change
+// what the earlier one selects; each selects what the equivalent core filter selects.
+func genericValue() error {
+	gg, _ := newGWorld2()
+	w := &gg.w
+	a0, x, y := gg.ids[0], gg.x, gg.y
+	w.NewEntity(a0)
+	w.NewEntity(a0, x)
+	w.NewEntity(a0, y)
+	w.NewEntity(a0, x, y)
+	w.NewEntity(a0, gg.ids[1])
+	sel := func(f ecs.Filter) string {
+		q := w.Query(f)
+		s := ""
+		for q.Next() {
+			s += fmt.Sprint(q.Entity()) + " "
+		}
+		return s
+	}
+	drain1 := func(q *generic.Query1[GA0]) string {
+		s := ""
+		for q.Next() {
+			s += fmt.Sprint(q.Entity()) + " "
+		}
+		return s
+	}
+	type reconf struct {
+		name  string
+		first func() *generic.Filter1[GA0]
+		core1 func() ecs.Filter
+		then  func(f *generic.Filter1[GA0])
+		core2 func() ecs.Filter
+	}
+	woX := func() ecs.Filter { f := ecs.All(a0).Without(x); return &f }
+	woXY := func() ecs.Filter { f := ecs.All(a0).Without(x, y); return &f }
+	onlyY := func() ecs.Filter { return ecs.All(a0, y) }
+	withY := func() ecs.Filter { f := ecs.All(a0, y).Without(x); return &f }
+	cases := []reconf{
+		{"Without(X) then Without(Y)", func() *generic.Filter1[GA0] { return generic.NewFilter1[GA0]().Without(generic.T[GX]()) }, woX,
+			func(f *generic.Filter1[GA0]) { f.Without(generic.T[GY]()) }, woXY},
+		{"Without(X) then With(Y)", func() *generic.Filter1[GA0] { return generic.NewFilter1[GA0]().Without(generic.T[GX]()) }, woX,
+			func(f *generic.Filter1[GA0]) { f.With(generic.T[GY]()) }, withY},
+		{"With(Y) then Without(X)", func() *generic.Filter1[GA0] { return generic.NewFilter1[GA0]().With(generic.T[GY]()) }, onlyY,
+			func(f *generic.Filter1[GA0]) { f.Without(generic.T[GX]()) }, withY},
+	}
+	for _, c := range cases {
+		// (1) an open query survives reconfiguration and a second query built from the same filter
+		f := c.first()
+		outer := f.Query(w)
+		c.then(f)
+		inner := f.Query(w)
+		gotInner := drain1(&inner)
+		gotOuter := drain1(&outer)
+		if want := sel(c.core1()); gotOuter != want {
+			return fmt.Errorf("generic filter %s: the query built before the reconfiguration visits [%s], the core filter for its configuration selects [%s]", c.name, gotOuter, want)
+		}
+		if want := sel(c.core2()); gotInner != want {
+			return fmt.Errorf("generic filter %s: the query built after the reconfiguration visits [%s], the core filter selects [%s]", c.name, gotInner, want)
+		}
+		// (2) an ecs.Filter value obtained before the reconfiguration, used after it
+		f = c.first()
+		fl := f.Filter(w)
+		c.then(f)
+		fl2 := f.Filter(w)
+		if got, want := sel(fl), sel(c.core1()); got != want {
+			return fmt.Errorf("generic filter %s: Filter() value obtained before the reconfiguration selects [%s] afterwards, expected [%s]", c.name, got, want)
+		}
+		if got, want := sel(fl2), sel(c.core2()); got != want {
+			return fmt.Errorf("generic filter %s: Filter() after the reconfiguration selects [%s], expected [%s]", c.name, got, want)
+		}
+	}
+	return nil
+}
+
 // genericArmAll runs every arity; returns the number of steps executed.
 func genericArmAll(seed uint64, steps int) (int, error) {
 	if err := genericFixed(); err != nil {
 		return 0, err
 	}
 	if err := genericRelation(); err != nil {
+		return 0, err
+	}
+	if err := genericValue(); err != nil {
 		return 0, err
 	}
 	total := 0
